@@ -347,9 +347,20 @@ func (c *wsConn) cancelCtx(req frame) {
 		return
 	}
 
+	if len(params) < 1 {
+		log.Errorf("%s: expected 1 param, got %d", wsCancel, len(params))
+		return
+	}
+
 	var id interface{}
 	if err := json.Unmarshal(params[0].data, &id); err != nil {
 		log.Error("handle me:", err)
+		return
+	}
+
+	id, err := normalizeID(id)
+	if err != nil {
+		log.Errorf("%s: invalid id: %s", wsCancel, err)
 		return
 	}
 
@@ -370,6 +381,11 @@ func (c *wsConn) handleChanMessage(frame frame) {
 	var params []param
 	if err := json.Unmarshal(frame.Params, &params); err != nil {
 		log.Error("failed to unmarshal channel id in xrpc.ch.val: %s", err)
+		return
+	}
+
+	if len(params) < 2 {
+		log.Errorf("%s: expected 2 params, got %d", chValue, len(params))
 		return
 	}
 
@@ -399,6 +415,11 @@ func (c *wsConn) handleChanClose(frame frame) {
 	var params []param
 	if err := json.Unmarshal(frame.Params, &params); err != nil {
 		log.Error("failed to unmarshal channel id in xrpc.ch.val: %s", err)
+		return
+	}
+
+	if len(params) < 1 {
+		log.Errorf("%s: expected 1 param, got %d", chClose, len(params))
 		return
 	}
 
